@@ -121,6 +121,8 @@ impl<F: Fn(&mut fmt::Formatter<'_>) -> fmt::Result> fmt::Debug for Fm<F> {
 }
 impl<const K: u8> From<C<K>> for A<K> { fn from(c: C<K>) -> Self { A(c.0) } }
 impl<const K: u8> Show for &'static A<K> { fn sv(&self) -> String { format!("&A{}:{}", K, self.0) } }
+impl<const K: u8> Show for Option<&'static A<K>> { fn sv(&self) -> String { match self { None => "None".to_string(), Some(a) => format!("Some(&A{}:{})", K, a.0) } } }
+impl<const K: u8> Show for &'static mut A<K> { fn sv(&self) -> String { format!("&mut A{}:{}", K, self.0) } }
 
 // ---- C11: compile-time probes "does `T: Trait` hold?" (an inherent const shadows a trait const when its bounds hold)
 pub struct Good(pub u8);
@@ -134,6 +136,14 @@ impl fmt::Debug for Good { fn fmt(&self, f: &mut fmt::Formatter<'_>) -> fmt::Res
 impl Clone for Good { fn clone(&self) -> Self { Good(self.0) } }
 impl Copy for Good {}
 impl Default for Good { fn default() -> Self { Good(0) } }
+/// implements the weaker trait of each companion pair only: PartialEq not Eq, PartialOrd not Ord, Clone not Copy
+pub struct Half(pub u8);
+impl PartialEq for Half { fn eq(&self, o: &Self) -> bool { self.0 == o.0 } }
+impl PartialOrd for Half { fn partial_cmp(&self, o: &Self) -> Option<Ordering> { Some(self.0.cmp(&o.0)) } }
+impl Hash for Half { fn hash<H: Hasher>(&self, h: &mut H) { h.write_u8(self.0) } }
+impl fmt::Debug for Half { fn fmt(&self, f: &mut fmt::Formatter<'_>) -> fmt::Result { write!(f, "H{}", self.0) } }
+impl Clone for Half { fn clone(&self) -> Self { Half(self.0) } }
+impl Default for Half { fn default() -> Self { Half(0) } }
 pub struct Probe<T: ?Sized>(pub ::core::marker::PhantomData<T>);
 pub trait ProbeFallback { const YES: bool = false; }
 impl<T: ?Sized> ProbeFallback for Probe<T> {}
@@ -177,5 +187,6 @@ probe_trait!(p_into_b1, ::core::convert::Into<crate::support::B<1>>);
 pub trait Mk {}
 impl Mk for Good {}
 impl Mk for u8 {}
+pub fn show_mk<X: Mk, const N: usize>(_: &[X; N], f: &mut fmt::Formatter<'_>) -> fmt::Result { f.write_str("mk") }
 pub fn m_same<const K: u8>(a: A<K>) -> A<K> { A(a.0.wrapping_add(60)) }
 impl From<Good> for u8 { fn from(g: Good) -> u8 { g.0 } }
